@@ -1,4 +1,5 @@
 import MindsVerif.Model.ErrKeys
+import MindsVerif.Model.CanTake
 import MindsVerif.Lemmas.ErrPrefix
 /-! Φ19 — the mask-based key classification agrees with `Row.action`; shift keys extend the
 parser's path. -/
@@ -93,5 +94,60 @@ theorem shift_key_extends {T : Tables} {toks : List Nat} {st : Stack} {e : ErrIn
   have h2 : (PT.leaf t).root / 2 = t := by simp [PT.root]
   simp only [h1, cond_true, h2]
   exact action_shift hs
+
+/-- a reduction on a valid path gives a valid path with the same frontier -/
+theorem reduce_path_yield {T : Tables} (hv : Valid T) {st : Stack} (hp : Path T st) {r : Row}
+    (hr : T.rows.get? (topState st) = some r) {p : Nat} (hmem : ∃ e ∈ r.reds, e.1 = p) :
+    ∃ c2, doReduce T { initCfg [] with st := st } p = .inl c2 ∧ Path T c2.st ∧
+      yieldStack c2.st = yieldStack st := by
+  obtain ⟨pr, ru, g, h1, h2, h3, h4, h5, h6⟩ :=
+    doReduce_ok hv (c := { initCfg [] with st := st }) hp hr hmem
+  refine ⟨_, h6, path_after_reduce hp h4 h5, ?_⟩
+  simp only [yieldStack_cons, PT.yield]
+  unfold yieldStack
+  rw [trees_take_drop st pr.rhs.length, yieldL_append]
+  rfl
+
+/-- every token `_can_take` keeps is a shift key of a state the parser reaches from the error stack by
+reductions that leave the frontier unchanged (or it is `$end` on the accepting state) -/
+theorem canTake_sound {T : Tables} (hv : Valid T) (t : Nat) : ∀ (fuel : Nat) (st : Stack), Path T st →
+    canTake T t fuel st = true →
+    ∃ st' row, Path T st' ∧ yieldStack st' = yieldStack st ∧
+      T.rows.get? (topState st') = some row ∧
+      ((∃ s', row.action t = .shift s') ∨ row.action t = .accept) := by
+  intro fuel
+  induction fuel with
+  | zero => intro st _ h; simp [canTake] at h
+  | succ n ih =>
+    intro st hp h
+    obtain ⟨r, hr⟩ := path_top_row hv hp
+    unfold canTake at h
+    simp only [hr] at h
+    have red : ∀ p, (∃ e ∈ r.reds, e.1 = p) →
+        (match doReduce T { initCfg [] with st := st } p with
+          | .inl c => canTake T t n c.st
+          | .inr _ => false) = true →
+        ∃ st' row, Path T st' ∧ yieldStack st' = yieldStack st ∧
+          T.rows.get? (topState st') = some row ∧
+          ((∃ s', row.action t = .shift s') ∨ row.action t = .accept) := by
+      intro p hmem hh
+      obtain ⟨c2, h6, hp2, hy2⟩ := reduce_path_yield hv hp hr hmem
+      rw [h6] at hh
+      obtain ⟨st', row, h1, h2, h3, h4⟩ := ih c2.st hp2 hh
+      exact ⟨st', row, h1, h2.trans hy2, h3, h4⟩
+    cases hd : r.dflt with
+    | some p =>
+      rw [hd] at h
+      exact red p ((rowFacts hv hr).dflt p hd) h
+    | none =>
+      rw [hd] at h
+      simp only at h
+      cases hact : r.action t with
+      | shift s' => exact ⟨st, r, hp, rfl, hr, Or.inl ⟨s', hact⟩⟩
+      | accept => exact ⟨st, r, hp, rfl, hr, Or.inr hact⟩
+      | none => rw [hact] at h; simp at h
+      | reduce p =>
+        rw [hact] at h
+        exact red p (action_reduce hact) h
 
 end MindsVerif.LR
